@@ -331,6 +331,9 @@ fn parse_cron_part(
                 return Err("Can't find end number of range".to_string());
             }
             let end = parse_range_value(end)?;
+            if range_parts.next().is_some() {
+                return Err("A range can only consist of a start and an end value".to_string());
+            }
             let max = if cron_type == &CronPartType::DayOfWeek {
                 7
             } else {
